@@ -2,6 +2,7 @@ import Driver.Codec
 import GldapModel.Generated.Facts
 import GldapModel.Gldap.ControlEncode
 import GldapModel.Gldap.Response
+import GldapModel.Gldap.Mux
 /-! `gmodel`: one line in, one line out. The Go harness feeds the same cases to the real
     gldap and to this driver and diffs the two output streams. -/
 open Ber Gldap Driver
@@ -93,6 +94,37 @@ def stripPrefix (s p : String) : Option String := if s.startsWith p then some (s
 def renderEAttrs (l : List EAttr) : String :=
   "[" ++ join ";" (l.map fun a => s!"{hex a.name}:{join "," (a.values.map hex)}") ++ "]"
 
+/-- route registrations: `b`, `s:<base>:<filter>:<scope>`, `e:<name>`, `m`, `a`, `d`, `D` (default), `U` (unbind);
+    the handler of the k-th registration is the number k -/
+def parseReg (k : Nat) (s : String) : Option (Reg Nat) :=
+  match s.splitOn ":" with
+  | ["b"] => some (.route .bind k)
+  | ["s", b, f, sc] => do pure (.route (.search (← unhex b) (← unhex f) (← sc.toInt?)) k)
+  | ["e", n] => do pure (.route (.extended (← unhex n)) k)
+  | ["m"] => some (.route .modify k)
+  | ["a"] => some (.route .add k)
+  | ["d"] => some (.route .delete k)
+  | ["D"] => some (.dflt k)
+  | ["U"] => some (.unbind k)
+  | _ => none
+
+def parseRegs (l : List String) : Option (List (Reg Nat)) :=
+  (l.zipIdx).mapM (fun (s, i) => parseReg i s)
+
+def renderEffect : Effect Nat → String
+  | .invoke h => s!"invoke {h}"
+  | .refuse id tag code => s!"refuse id={id} tag={tag} code={code}"
+
+def doMux (regs : List (Reg Nat)) (bs : Bytes) (dec : Option Bytes) : String :=
+  let env : Env := { ext := extTrue, decompile := fun _ => dec }
+  match serveFrame env Generated.guards bs with
+  | .ok msg =>
+    match msg with
+    | .unbind _ => "unbind"
+    | _ => join "," ((serve Generated.refusalTable (Mux.build regs) msg).map renderEffect)
+  | .err => "decode-err"
+  | .panic => "decode-panic"
+
 def handle (line : String) : String :=
   match (line.splitOn " ").filter (· ≠ "") with
   | ["ber", h] => match unhex h with
@@ -125,6 +157,13 @@ def handle (line : String) : String :=
        | some opts, some sets => doResp ctor mid dn opts sets
        | _, _ => "bad-input")
     | _, _, _, _ => "bad-input"
+  | ["mux", r, h, d] =>
+    match stripPrefix r "routes=", unhex h, (if d == "!" then some none else (unhex d).map some) with
+    | some r, some bs, some dec =>
+      (match parseRegs (splitNE r ";") with
+       | some regs => doMux regs bs dec
+       | none => "bad-input")
+    | _, _, _ => "bad-input"
   | ["behera", g, e, c] =>
     match parseOptNat g, parseOptNat e, parseOptNat c with
     | some g, some e, some c => renderOutcome renderControl (newBehera Generated.beheraErrRange g e c)
